@@ -74,3 +74,18 @@ fn f9b_prio2_new_extreme_input_len() {
     assert!(Prio2::new((1 << 19) - 1).is_ok());
     assert!(Prio2::new(1 << 19).is_err());
 }
+
+#[test]
+fn f10_l1boundsum_new_len_max() {
+    // C16: invalid parameters give an error, not a panic (debug) / a broken instance with zero gadget calls (release)
+    use prio::field::Field128;
+    use prio::flp::gadgets::{Mul, ParallelSum};
+    use prio::flp::types::L1BoundSum;
+    use prio::flp::Flp;
+    let r = std::panic::catch_unwind(|| L1BoundSum::<Field128, ParallelSum<Field128, Mul>>::new(3, usize::MAX, 4).map(|t| t.input_len()));
+    match r {
+        Err(_) => panic!("L1BoundSum::new(3, usize::MAX, 4) panicked"),
+        Ok(Ok(n)) => panic!("L1BoundSum::new(3, usize::MAX, 4) returned Ok with input_len {}", n),
+        Ok(Err(_)) => {}
+    }
+}
